@@ -98,6 +98,7 @@ func init() {
 		earlier := c.Choose(2) == 1 // the same parser has read an INI file before, in which the option was named by another of its names
 		if si == 0 && ni == 0 && reps == 1 && !asDefaults && !earlier {
 			c13LateGroup(c, k)
+			c13Renamed(c, k)
 		}
 		kind := c13Kinds[k]
 		d := c13Decl(k)
@@ -338,5 +339,29 @@ func c13LateGroup(c *explore.Ctx, k int) {
 		c.Fail("section-of-a-group-added-after-a-first-read-not-found", map[string]interface{}{"added_below": where, "error": err.Error()})
 	} else if data.Zz != "v" {
 		c.Fail("section-of-a-group-added-after-a-first-read-not-applied", map[string]interface{}{"added_below": where, "value": data.Zz})
+	}
+}
+
+// c13Renamed: a section is matched against the group's description as it is when the file is read.
+func c13Renamed(c *explore.Ctx, k int) {
+	d := c13Decl(k)
+	b := d.BuildTags()
+	if b.Err != nil {
+		return
+	}
+	g := b.Parser.Command.Group.Find("Grp")
+	if g == nil {
+		c.Fail("renamed-group|harness", "group Grp not found")
+		return
+	}
+	g.ShortDescription = "Renamed Options"
+	errNew := flags.NewIniParser(b.Parser).Parse(strings.NewReader("[renamed options]\n"))
+	errOld := flags.NewIniParser(b.Parser).Parse(strings.NewReader("[Grp]\n"))
+	c.Hit("group-renamed")
+	if errNew != nil {
+		c.Fail("section-of-a-renamed-group-not-found", errNew.Error())
+	}
+	if errOld == nil {
+		c.Fail("section-by-the-former-name-of-a-group-accepted", "[Grp] after the group was renamed")
 	}
 }
